@@ -73,7 +73,9 @@ Print Assumptions C02_sprint_leaf_noninterference.
    values only when no error hook is installed) [vrel]; container types not declared safe; and
    for Unsafe(x) with x such a tree and Safe(x) with x a leaf [arel]; and for values whose Format /
    SafeFormat method runs a SCRIPT against the printer - the same sequence of SafeWriter / io.Writer
-   calls with related payloads, nested Print / Printf on related operands [actrel]. *)
+   calls with related payloads, nested Print / Printf on related operands [actrel]; methods may PANIC
+   (with related payloads, at any point of a script) or be called on nil receivers: the panic reports
+   of the two runs are related. *)
 Theorem C02_sprintf_tree_noninterference : forall fuel env f a1 a2 o1 o2,
   osane (orc env) -> hook_ok env -> no_star f = true -> Forall2 arel a1 a2 ->
   sprintf fuel env f a1 = ROk o1 -> sprintf fuel env f a2 = ROk o2 ->
@@ -161,12 +163,17 @@ Definition c02_tree (name : bytes) (id : Z) (tag : bytes) (x : Z) : list value :
    VUser (c02_t [109;97;105;110;46;83;70]%N) (mkI true false false false false false) false
          (VStruct (c02_t [109;97;105;110;46;83;70]%N) [])
          [ASafeString [117;115;101;114;61]%N; AUnsafeString name;
-          APrintf [32;105;100;61;37;100]%N [VInt c02_ti id]; APrint [VStr c02_ts tag]]].
-Definition c02_fmt2 : bytes := [37;43;118;124;37;118;124;37;118;124;37;118;124;37;118;124;37;115;124;37;118]%N.
+          APrintf [32;105;100;61;37;100]%N [VInt c02_ti id]; APrint [VStr c02_ts tag]];
+   (* a Stringer whose method panics with an unsafe payload; a nil *T receiver *)
+   VUser (c02_t [109;97;105;110;46;80;83]%N) (mkI false false false false false true) false
+         (VStruct (c02_t [109;97;105;110;46;80;83]%N) []) [APanic (VStr c02_ts name)];
+   VUser (c02_t [42;109;97;105;110;46;78]%N) (mkI false false false false false true) true
+         (VPtr (c02_t [42;109;97;105;110;46;78]%N) 0 None) []].
+Definition c02_fmt2 : bytes := [37;43;118;124;37;118;124;37;118;124;37;118;124;37;118;124;37;115;124;37;118;124;37;118;124;37;115]%N.
 
 Lemma c02_trees_related : Forall2 arel (c02_tree [97;98]%N 42 [120;10;121]%N 5) (c02_tree [99;100]%N 4711 [122;10;122]%N 77).
 Proof.
-  unfold c02_tree. constructor; [apply ar_v|constructor; [apply ar_v|constructor; [apply ar_v|constructor; [apply ar_v|constructor; [apply ar_unsafe|constructor; [apply ar_safe|constructor; [apply ar_v|constructor]]]]]]].
+  unfold c02_tree. constructor; [apply ar_v|constructor; [apply ar_v|constructor; [apply ar_v|constructor; [apply ar_v|constructor; [apply ar_unsafe|constructor; [apply ar_safe|constructor; [apply ar_v|constructor; [apply ar_v|constructor; [apply ar_v|constructor]]]]]]]]].
   - apply vr_struct; [reflexivity | reflexivity|].
     constructor; [split; [reflexivity|]; apply vr_leaf; c02_lrel; split; [reflexivity | c02_srel]|].
     constructor; [split; [reflexivity|]; apply vr_leaf; c02_lrel; split; [reflexivity|]; unfold irel, Fmt.two64; lia|].
@@ -192,6 +199,9 @@ Proof.
     constructor; [apply ac_printf; [reflexivity|]; constructor; [|constructor]; apply ar_v, vr_leaf; c02_lrel; split; [reflexivity|]; unfold irel, Fmt.two64; lia|].
     constructor; [apply ac_print; constructor; [|constructor]; apply ar_v, vr_leaf; c02_lrel; split; [reflexivity | c02_srel]|].
     constructor.
+  - apply vr_puser; try reflexivity; [|apply vr_struct; [reflexivity | reflexivity | constructor]].
+    apply ar_v, vr_leaf. c02_lrel. split; [reflexivity | c02_srel].
+  - apply vr_nuser; try reflexivity. apply vr_ptr_nil; reflexivity.
 Qed.
 
 Example C02_tree_nonvacuous :
